@@ -234,7 +234,7 @@ def gen_sites(rng, fam, quick):
         base = gen_sites(rng, rng.choice(['random', 'grid', 'runs']), quick)
         return base + [rng.choice(base) for _ in range(rng.randint(1, 6))]
     if fam == 'large':         # bigger random sets (fewer of them)
-        R = rng.choice([30, 1000, LIM]); n = rng.randint(60, 120 if quick else 300)
+        R = rng.choice([30, 1000, LIM]); n = rng.randint(60, 120 if quick else 160)
         return [(rng.randint(-R, R), rng.randint(-R, R)) for _ in range(n)]
     raise ValueError(fam)
 
@@ -410,6 +410,18 @@ def scale_ring(r, s):
     return [(x * s, y * s) for x, y in r]
 
 
+def segs_conflict(a, b, c, d):
+    """the closed segments ab and cd cross properly or overlap in more than a point"""
+    d1, d2, d3, d4 = det(a, b, c), det(a, b, d), det(c, d, a), det(c, d, b)
+    if ((d1 > 0 and d2 < 0) or (d1 < 0 and d2 > 0)) and ((d3 > 0 and d4 < 0) or (d3 < 0 and d4 > 0)):
+        return True
+    if d1 == 0 and d2 == 0 and d3 == 0 and d4 == 0:
+        k = 0 if a[0] != b[0] else 1
+        lo1, hi1 = min(a[k], b[k]), max(a[k], b[k]); lo2, hi2 = min(c[k], d[k]), max(c[k], d[k])
+        return max(lo1, lo2) < min(hi1, hi2)
+    return False
+
+
 def gen_holes(rng, shell, want):
     """small holes inside `shell` (scaled so that there is room): free, touching the shell at a vertex / on an edge, touching
     each other at a vertex. Candidates are only pre-filtered here; validity is decided by the extracted C05 model."""
@@ -448,6 +460,10 @@ def gen_holes(rng, shell, want):
         for p in hole[:-1]:
             if not (pip(p, shell) or any(det(a, b, p) == 0 and min(a[0], b[0]) <= p[0] <= max(a[0], b[0]) and min(a[1], b[1]) <= p[1] <= max(a[1], b[1]) for a, b in zip(shell, shell[1:]))):
                 ok = False; break
+        if ok:
+            for ring in [shell] + holes:
+                if any(segs_conflict(a, b, c, d) for a, b in zip(hole, hole[1:]) for c, d in zip(ring, ring[1:])):
+                    ok = False; break
         if ok:
             holes.append(hole)
     return holes
@@ -576,6 +592,34 @@ def gen_pred_cases(rng, n):
 
 
 # ================================================================================================ the check
+def par_lines(ctx, argv, lines, timeout=900, workers=6, min_chunk=40):
+    """ctx.run_lines over contiguous chunks in parallel worker processes (results in input order)"""
+    n = len(lines)
+    if n < 2 * min_chunk:
+        return ctx.run_lines(argv, lines, timeout=timeout)
+    from concurrent.futures import ThreadPoolExecutor
+    k = min(workers, max(1, n // min_chunk))
+    size = (n + k - 1) // k
+    chunks = [lines[i:i + size] for i in range(0, n, size)]
+    with ThreadPoolExecutor(max_workers=k) as ex:
+        res = list(ex.map(lambda c: ctx.run_lines(argv, c, timeout=timeout), chunks))
+    return [o for r in res for o in r]
+
+
+def run_harness(S, lines, timeout=900):
+    """run the C++ harness; a loader error (the shared library is being re-linked by a concurrent build of /repo) is not an
+    answer of the implementation: wait for the build lock and run the batch again"""
+    ctx = S['ctx']
+    for attempt in range(4):
+        out = par_lines(ctx, [S['hexe']], lines, timeout=timeout)
+        if not any(o.startswith('CRASH:127') and 'shared libraries' in o for o in out):
+            return out
+        import time
+        time.sleep(5 + 10 * attempt)
+        ctx.build_repo('rel')
+    return out
+
+
 class Stats(dict):
     def inc(self, *ks):
         d = self
@@ -650,13 +694,13 @@ def run(ctx):
     state = dict(ctx=ctx, drv=drv, hexe=hexe, st=st, nviol=0)
     if ctx.replay:
         return do_replay(state, ctx.replay)
-    seeds = [ctx.seed] if quick else [ctx.seed + i for i in range(4)]
+    seeds = [ctx.seed] if quick else [ctx.seed + i for i in range(3)]
     for si, sd in enumerate(seeds):
         rng = random.Random(sd * 7919 + 16)
-        do_predicate(state, rng, 2500 if quick else 30000)
-        do_delaunay(state, rng, 700 if quick else 9000, corpus=(si == 0))
-        do_constrained(state, rng, 400 if quick else 5000, corpus=(si == 0))
-        do_voronoi(state, rng, 300 if quick else 3500)
+        do_predicate(state, rng, 2500 if quick else 20000); ctx.log('predicate correspondence done (seed %d)' % sd)
+        do_delaunay(state, rng, 700 if quick else 6000, corpus=(si == 0)); ctx.log('Delaunay done')
+        do_constrained(state, rng, 400 if quick else 4000, corpus=(si == 0)); ctx.log('constrained done')
+        do_voronoi(state, rng, 300 if quick else 2000); ctx.log('Voronoi done')
         if state['nviol'] > 8:
             break
     ctx.cov['traces_validated_against_impl'] = ctx.cov['evaluations']
@@ -707,8 +751,8 @@ def do_predicate(S, rng, n):
     ctx, st = S['ctx'], S['st']
     cases = gen_pred_cases(rng, n)
     lines = ['P ' + ' '.join(hexd(v) for v in vals) for _, vals in cases]
-    impl = ctx.run_lines([S['hexe']], lines, timeout=600)
-    model = ctx.run_lines([S['drv']], lines, timeout=600)
+    impl = run_harness(S, lines, timeout=600)
+    model = par_lines(ctx, [S['drv']], lines, timeout=600)
     for (kind, vals), line, i, m in zip(cases, lines, impl, model):
         mt = m.split()
         it = i.split()
@@ -750,7 +794,7 @@ def eval_delaunay(S, cases):
     """cases: (family, sites, tolnum, regime, k, gtype) -> list of dicts with harness output, driver verdict, classification"""
     ctx = S['ctx']
     hl = ['D %d %d %s %s' % (k, tol, gt, sites_txt(pts)) for _, pts, tol, _, k, gt in cases]
-    hout = ctx.run_lines([S['hexe']], hl, timeout=900)
+    hout = run_harness(S, hl, timeout=900)
     dl = []; idx = []
     res = []
     for ci, (c, ho) in enumerate(zip(cases, hout)):
@@ -766,7 +810,7 @@ def eval_delaunay(S, cases):
             r['verdict'] = 'VIOLATION'; r['why'] = 'unparsable result: ' + ho[:300]; continue
         r['driver_line'] = line; r['ntri'] = ntri
         dl.append(line); idx.append(ci)
-    dout = ctx.run_lines([S['drv']], dl, timeout=1800) if dl else []
+    dout = par_lines(ctx, [S['drv']], dl, timeout=1800) if dl else []
     for ci, d in zip(idx, dout):
         r = res[ci]; r['driver'] = d
         if d == 'OK':
@@ -847,7 +891,7 @@ def do_delaunay(S, rng, n, corpus=False):
                     w = l.split(); pts = [(int(w[i]), int(w[i + 1])) for i in range(4, len(w), 2)]
                     cases.append(('corpus', pts, int(w[2]), 'zero' if w[2] == '0' else 'merge', int(w[1]), w[3]))
     for _ in range(n):
-        fams = SITE_FAMILIES + (['large'] if rng.random() < 0.02 else [])
+        fams = SITE_FAMILIES + (['large'] if rng.random() < (0.02 if ctx.quick else 0.004) else [])
         fam, pts = make_site_case(rng, ctx.quick, fams)
         tol, regime = pick_tolerance(rng, pts)
         k = rng.choice([0, 0, 0, 0, 1, -1, 3, -7, 20, -20, 100, -100])
@@ -896,7 +940,7 @@ def eval_constrained(S, cases):
     hl = []
     for fam, polys, k in cases:
         hl.append('C %d %s' % (k, ' / '.join(poly_txt(rings) for rings in polys)))
-    hout = ctx.run_lines([S['hexe']], hl, timeout=900)
+    hout = run_harness(S, hl, timeout=900)
     res = []; dl = []; idx = []
     for ci, (c, ho) in enumerate(zip(cases, hout)):
         fam, polys, k = c
@@ -915,7 +959,7 @@ def eval_constrained(S, cases):
             r['verdict'] = 'MALFORMED'; r['why'] = 'implementation failed: ' + ho[:300]
             line = 'C 0 %s T' % ptxt
         r['driver_line'] = line; dl.append(line); idx.append(ci)
-    dout = ctx.run_lines([S['drv']], dl, timeout=1800) if dl else []
+    dout = par_lines(ctx, [S['drv']], dl, timeout=1800) if dl else []
     for ci, d in zip(idx, dout):
         r = res[ci]; r['driver'] = d
         if d == 'INVALID-INPUT':
@@ -1045,7 +1089,7 @@ def eval_voronoi(S, cases, ulps=ULPS):
     hl = []
     for fam, pts, tol, k, flags, env, gt in cases:
         hl.append('V %d %d %d %s %s %s' % (k, tol, flags, ','.join(map(str, env)) if env else '-', gt, sites_txt(pts)))
-    hout = ctx.run_lines([S['hexe']], hl, timeout=900)
+    hout = run_harness(S, hl, timeout=900)
     res = []; dl = []; idx = []
     for ci, (c, ho) in enumerate(zip(cases, hout)):
         fam, pts, tol, k, flags, env, gt = c
@@ -1068,7 +1112,7 @@ def eval_voronoi(S, cases, ulps=ULPS):
         r['ncells'] = len(cells)
         line = 'V %d %d %s S %s G %s' % (ulps, 1 if flags & 2 else 0, ' '.join(map(str, env)) if env else '-', sites_txt(pts), ' ; '.join(' '.join(c2) for c2 in cells))
         r['driver_line'] = line; dl.append(line); idx.append(ci)
-    dout = ctx.run_lines([S['drv']], dl, timeout=1800) if dl else []
+    dout = par_lines(ctx, [S['drv']], dl, timeout=1800) if dl else []
     for ci, d in zip(idx, dout):
         r = res[ci]; r['driver'] = d
         if d == 'OK': r['verdict'] = 'OK'
